@@ -19,8 +19,8 @@ import (
 // the other properties' oracles are not evaluated here.
 
 type C15Case struct {
-	Family string `json:"family"`
-	Yield  []byte `json:"yield"`
+	Family string    `json:"family"`
+	Yield  []byte    `json:"yield"`
 	C01    *C01Case  `json:"c01,omitempty"`
 	Conv   *ConvCase `json:"conv,omitempty"`
 	C07    *C07Case  `json:"c07,omitempty"`
